@@ -112,8 +112,11 @@ def run_suite(suite, rng, tier, stats, scale=1):
         obs = [safe_impl(suite, c) for c in cases]
     finally:
         suite.teardown()
-    pairs = [suite.encode(c, o) for c, o in zip(cases, obs)]
-    mism, errors = coqrun.eval_mismatches(suite, pairs, shard=suite.shard)
+    if suite.model:
+        pairs = [suite.encode(c, o) for c, o in zip(cases, obs)]
+        mism, errors = coqrun.eval_mismatches(suite, pairs, shard=suite.shard)
+    else:   # a harness-only suite (runtime matter outside the model): oracle only
+        pairs, mism, errors = [None] * len(cases), [], []
     failures = []
     for i, (c, o) in enumerate(zip(cases, obs)):
         try:
